@@ -40,6 +40,16 @@ static void cb_func(struct rcu_head *h)
 		free(n);
 }
 
+/*
+ * bp: other registered threads may also be inside call_rcu() at the instant of fork() (it runs
+ * under the read-side lock). How many are is harness bookkeeping, invisible to the scheduler.
+ */
+static int reader_calls, calls_in_flight, forked_with_call_in_flight, readers_done;
+static const char *child_tag = "child";
+
+HARNESS_BOOKKEEPING static void in_flight(int d) { calls_in_flight += d; }
+HARNESS_BOOKKEEPING static int in_flight_now(void) { return calls_in_flight; }
+
 static void do_call(int who, int free_self)
 {
 	struct cbnode *n = malloc(sizeof(*n));
@@ -48,7 +58,11 @@ static void do_call(int who, int free_self)
 	n->magic = MAGIC;
 	n->free_self = free_self;
 	id = n->id = orc_cb_new(who);
+	if (who >= 1 && who <= 3)
+		in_flight(1);
 	F->call_rcu(&n->head, cb_func);
+	if (who >= 1 && who <= 3)
+		in_flight(-1);
 	orc_cb_called(id);
 }
 
@@ -151,15 +165,15 @@ static void barrier_and_check(const char *what)
 static void child_main(void)
 {
 	in_child = 1;
-	usim_set_op("child: first use after fork");
+	usim_set_op("%s: first use after fork", child_tag);
 	/* immediately usable: read side, grace periods, call_rcu, barrier, resizable tables */
 	read_section(50);
 	sync_checked(50, "synchronize_rcu() in the forked child");
 	do_call(50, 1);
 	do_call(50, 0);
-	usim_set_op("child: rcu_barrier");
+	usim_set_op("%s: rcu_barrier", child_tag);
 	barrier_and_check("in the forked child after rcu_barrier()");
-	usim_set_op("child: hash table");
+	usim_set_op("%s: hash table", child_tag);
 	exercise_table(NULL);
 	read_section(50);
 	sync_checked(50, "synchronize_rcu() in the forked child");
@@ -185,6 +199,13 @@ static void do_fork(void)
 	if (pid == 0) {
 		in_child = 1;
 		orc_forget_open_sections();	/* the other threads do not exist here */
+		orc_cb_forked_child();
+		if (in_flight_now()) {
+			forked_with_call_in_flight = 1;
+			child_tag = "child/call_rcu-in-flight-at-fork";
+			usim_probe("fork.child_forked_while_another_thread_inside_call_rcu");
+		}
+		usim_set_op("%s: after-fork handlers", child_tag);
 		if (F->is_bp)
 			F->bp_after_fork_child();
 		F->call_rcu_after_fork_child();
@@ -202,14 +223,21 @@ static void do_fork(void)
 }
 
 /* bp only: other reader threads registered and inside sections at fork time */
+static int nreaders_g;
+static uint32_t call_pattern;
+static int rnd_thread_bit(int me, int n) { return (call_pattern >> ((me * 7 + n) % 30)) & 1; }
+
 static void *bp_reader(void *arg)
 {
 	int me = (int) (long) arg, n = 0;
 	usim_thread_name("bp-reader%d", me);
 	while (!uatomic_read(&bp_stop) && n++ < 40) {
 		read_section(me);
+		if (reader_calls && n <= 6 && rnd_thread_bit(me, n))
+			do_call(me, 1);
 		usim_pause();
 	}
+	uatomic_inc(&readers_done);
 	return NULL;
 }
 
@@ -287,6 +315,8 @@ static void *forker(void *arg)
 	}
 	usim_quiet_vote();
 	uatomic_set(&bp_stop, 1);
+	while (reader_calls && uatomic_read(&readers_done) < nreaders_g)
+		usleep(1000);	/* their last call_rcu() has returned */
 	/* parent: everything queued before and after the fork runs exactly once here too */
 	barrier_and_check("in the parent after rcu_barrier()");
 	if (pt_crdp) {
@@ -353,13 +383,19 @@ void scen_fork(void)
 	}
 	with_owner = (int) usim_param("helper_owner", rnd(3) == 0);
 	owner_pauses = (int) rnd(12);
-	usim_describe("],\"bp_readers\":%d,\"helper_owner\":%d}", nreaders, with_owner);
+	reader_calls = (int) usim_param("reader_calls", nreaders && rnd(2));
+	call_pattern = rnd(1u << 30);
+	nreaders_g = nreaders;
+	usim_describe("],\"bp_readers\":%d,\"reader_calls\":%d,\"helper_owner\":%d}", nreaders, reader_calls, with_owner);
 	script_apply_skips(scripts, 1);
 	gptr = malloc(sizeof(*gptr));
 	gptr->version = 0;
 	gptr->a = 1;
 	gptr->b = 2;
 	usim_quiet_expect(1);
+	/* the first call_rcu() of a process creates the default helper under call_rcu_mutex: not from a reader racing fork() */
+	if (reader_calls)
+		(void) F->get_default_call_rcu_data();
 	for (i = 0; i < nreaders; i++)
 		pthread_create(&rd[i], NULL, bp_reader, (void *) (long) (i + 1));
 	if (with_owner)
